@@ -153,6 +153,12 @@ func (ce *convergenceElem) deactivate(ttl int32) {
 	ce.mutex.Lock()
 	defer ce.mutex.Unlock()
 
+	// Another goroutine might have deactivated this convergenceElem while we were waiting for the
+	// mutex, e.g., an Unregister racing the Manager's shutdown. Closing stopSyn twice would panic.
+	if !ce.isActive() {
+		return
+	}
+
 	log.WithFields(log.Fields{
 		"cla": ce.conv,
 	}).Info("Deactivating CLA")
